@@ -194,6 +194,8 @@ func main() {
 				discharged++
 				solverTime[r.Solver] += r.Seconds
 				solverCount[r.Solver]++
+			} else if r.Status == "engine-error" {
+				undecided = append(undecided, r.Name+": engine fault (the solvers rejected the query or disagreed): "+firstLine(r.Output, ""))
 			} else {
 				failed = append(failed, r)
 			}
